@@ -725,6 +725,14 @@ def gen_quad_case(s, real_frac=0.0):
     else:
         mix_ok = True
     mean = s.loguniform(lo, 2 * hi)
+    conc = s.chance(0.15)
+    if conc:
+        # a DFE concentrated at very small |gamma| in both dimensions: its density underflows at gamma = 0.01, 1, 100
+        # (legal, and the situation in which a symmetry test on a few fixed points says nothing)
+        mean = s.loguniform(2e-4, 3e-3)
+
+    def mean2():
+        return mean * s.uniform(0.3, 3.0) if conc else s.loguniform(lo, 2 * hi)
 
     def p1(name):
         if name == 'exponential':
@@ -745,7 +753,7 @@ def gen_quad_case(s, real_frac=0.0):
                 return [math.log(mean), sg, rho]
             if r < 0.6:   # nearly symmetric 5-parameter form (exercises the symmetric-shortcut guard)
                 return [math.log(mean), math.log(mean) * (1 + 1e-3) + 1e-3, sg, sg, rho]
-            return [math.log(mean), math.log(s.loguniform(lo, 2 * hi)), sg, s.uniform(0.5, 3.0), rho]
+            return [math.log(mean), math.log(mean2()), sg, s.uniform(0.5, 3.0) if not conc else s.uniform(0.5, 1.0), rho]
         a = s.uniform(0.5, 4.0)
         r = s.random()
         if r < 0.3:
@@ -753,11 +761,11 @@ def gen_quad_case(s, real_frac=0.0):
         if r < 0.45:
             return [a, mean / a, 0.3]
         a2 = s.uniform(0.5, 4.0)
-        out = [a, a2, mean / a, s.loguniform(lo, 2 * hi) / a2]
+        out = [a, a2, mean / a, mean2() / a2]
         if r < 0.6:
             out = [a, a * (1 + 1e-3), mean / a, mean / a]
         elif r < 0.75:
-            out = [a, a, mean / a, s.loguniform(lo, 2 * hi) / a]      # equal shapes, different scales
+            out = [a, a, mean / a, mean2() / a]      # equal shapes, different scales
         return out + ([0.1] if s.chance(0.3) else [])
     n1, n2 = s.choice(PDF1), s.choice(PDF2)
     gpos = s.choice([a for a in add if a > 0] or [add[0]])
